@@ -1,7 +1,7 @@
 (* The wait-for graph holds exactly the edges of the unfinished tracked asks (C14, C15): every edge
    belongs to an ask that an actor's running hook is still awaiting, every such ask has its edge, and
    keys are unique.  Hence no residue once every ask has finished. *)
-From RS Require Import Tactics Frame ListFacts Spec NF ActorSpec StepCases OpsSpec OpCases Ids.
+From RS Require Import Tactics Frame ListFacts Spec SysFrame NF ActorSpec StepCases OpsSpec OpCases Ids Reply RealTime Graph.
 
 Definition ids_inj (s : sys) : Prop :=
   forall b b' xb xb', get_actor s b = Some xb -> get_actor s b' = Some xb' -> a_id xb = a_id xb' -> b = b'.
@@ -21,7 +21,8 @@ Definition gi (s : sys) : Prop := ids_inj s /\ graph_core s.
 
 (* ---------- the parts of the state the invariant reads ---------- *)
 Definition ga (x : actor) := (a_id x, a_hop x).
-Definition go (p : op) := (o_id p, o_tracked p, is_done (o_ph p), o_caller p, o_tgt p).
+(* whether an untracked operation is finished does not matter to the graph *)
+Definition go (p : op) := (o_id p, o_tracked p, o_tracked p && is_done (o_ph p), o_caller p, o_tgt p).
 
 Definition gsame (s s' : sys) : Prop :=
   (forall b, option_map ga (get_actor s' b) = option_map ga (get_actor s b)) /\
@@ -49,17 +50,21 @@ Lemma gsame_op s s' o q : gsame s s' -> get_op s' o = Some q ->
   exists p, get_op s o = Some p /\ go p = go q.
 Proof.
   intros (_ & O & _) Hq. specialize (O o). rewrite Hq in O. destruct (get_op s o) as [p|]; [|discriminate].
-  cbn in O. injection O as E. eauto.
+  cbn [option_map] in O. assert (E : go p = go q) by congruence. eauto.
 Qed.
 Lemma gsame_op_fwd s s' o p : gsame s s' -> get_op s o = Some p ->
   exists q, get_op s' o = Some q /\ go q = go p.
 Proof.
   intros (_ & O & _) Hp. specialize (O o). rewrite Hp in O. destruct (get_op s' o) as [q|]; [|discriminate].
-  cbn in O. injection O as E. eauto.
+  cbn [option_map] in O. assert (E : go q = go p) by congruence. eauto.
 Qed.
 Lemma go_fields p q : go p = go q ->
-  o_tracked p = o_tracked q /\ is_done (o_ph p) = is_done (o_ph q) /\ o_caller p = o_caller q /\ o_tgt p = o_tgt q.
-Proof. unfold go. intros E. injection E as ? ? ? ? ?. auto. Qed.
+  o_tracked p = o_tracked q /\ (o_tracked p = true -> is_done (o_ph p) = is_done (o_ph q)) /\
+  o_caller p = o_caller q /\ o_tgt p = o_tgt q.
+Proof.
+  unfold go. intros E. injection E as E1 E2 E3 E4 E5. repeat split; auto.
+  intros Ht. destruct (o_tracked p); [|discriminate]. destruct (o_tracked q); [|discriminate]. exact E3.
+Qed.
 
 Lemma edge_wit_gsame s s' cid tid o p b xb xt :
   gsame s s' -> edge_wit s cid tid o p b xb xt -> exists p' xb' xt', edge_wit s' cid tid o p' b xb' xt'.
@@ -69,6 +74,7 @@ Proof.
   destruct (gsame_actor_fwd _ _ _ _ H W5) as (xb' & Hb' & I1 & I2).
   destruct (gsame_actor_fwd _ _ _ _ H W8) as (xt' & Ht' & J1 & _).
   exists p', xb', xt'. constructor; try congruence.
+  rewrite E2 by congruence. exact W3.
 Qed.
 
 Lemma gi_gsame s s' : gsame s s' -> gi s -> gi s'.
@@ -178,6 +184,8 @@ Proof.
   unfold clear_hop, drop_guard. destruct (o_tracked p); destruct (o_caller p) as [b|]; try reflexivity.
   - change (get_actor (upd_op ?o ?f ?st) b) with (get_actor st b). destruct (get_actor s b); reflexivity.
 Qed.
+Lemma get_actor_drop_guard p st b : get_actor (drop_guard p st) b = get_actor st b.
+Proof. unfold drop_guard. repeat case_match; reflexivity. Qed.
 Lemma finish_get_actor s o r p b :
   get_op s o = Some p ->
   get_actor (finish o r s) b =
@@ -187,13 +195,8 @@ Lemma finish_get_actor s o r p b :
 Proof.
   intros Hp. unfold finish. rewrite Hp. change (get_actor (emit ?e ?st) b) with (get_actor st b).
   unfold clear_hop. destruct (o_caller p) as [c|].
-  - rewrite get_actor_upd_actor. unfold drop_guard.
-    assert (E : forall st, get_actor (if o_tracked p then match Some c with
-                | Some b0 => match get_actor st b0 with Some y => set_s_graph (g_remove (a_id y) (s_graph st)) st | None => st end
-                | None => st end else st) b = get_actor st b).
-    { intros st. destruct (o_tracked p); [|reflexivity]. destruct (get_actor st c); reflexivity. }
-    unfold clr. destruct (b =? c); rewrite E; reflexivity.
-  - unfold drop_guard. destruct (o_tracked p); reflexivity.
+  - rewrite get_actor_upd_actor, get_actor_drop_guard. reflexivity.
+  - rewrite get_actor_drop_guard. reflexivity.
 Qed.
 
 Lemma gi_finish s o r : gi s -> gi (finish o r s).
@@ -209,7 +212,7 @@ Proof.
     assert (Hclr : forall y, a_id (clr o y) = a_id y /\ (forall o', a_hop y = Some o' -> o' <> o -> a_hop (clr o y) = Some o') /\
                              (forall o', a_hop (clr o y) = Some o' -> a_hop y = Some o')).
     { intros y. split; [apply clr_id|]. split; [intros; apply clr_hop_other; assumption|].
-      intros o' H. unfold clr in H. destruct (a_hop y) as [o2|] eqn:E; [|exact H]. destruct (o2 =? o); [discriminate|congruence]. }
+      intros o' H. unfold clr in H. destruct (a_hop y) as [o2|] eqn:E; [|congruence]. destruct (o2 =? o); [discriminate|congruence]. }
     destruct (o_caller p) as [c|].
     - destruct (b =? c).
       + destruct (get_actor s b) as [y|]; [|discriminate]. cbn in Hy'. injection Hy' as <-. exists y. split; [reflexivity|]. apply Hclr.
@@ -265,10 +268,457 @@ Proof.
       destruct (get_actor s b); [|exact Hk]. apply g_remove_keys, Hk.
 Qed.
 
+
 (* ---------- the composite client functions ---------- *)
-Lemma gi_after_push s o k : gi s -> gi (after_push o k s).
+Lemma tracked_not_done s o p : gi s -> get_op s o = Some p -> o_tracked p && is_done (o_ph p) = false.
 Proof.
-  intros H. unfold after_push. destruct k; try (apply gi_finish; exact H).
-  eapply gi_gsame; [|exact H]. apply gsame_upd_op; [reflexivity| |apply gsame_refl].
-  intros p. unfold go. cbn. (* OPre -> OWaitReply: neither is done *)
-Abort.
+  intros [_ [_ Ho _]] Hp. destruct (o_tracked p) eqn:Ht; [|reflexivity].
+  destruct (Ho o p Hp Ht) as (b & xb & xt & W & _). rewrite (ew_nd _ _ _ _ _ _ _ _ W). reflexivity.
+Qed.
+
+Lemma gi_set_waitreply s o : gi s -> gi (upd_op o (set_o_ph OWaitReply) s).
+Proof.
+  intros H. eapply gi_gsame; [|exact H]. repeat split.
+  intros o'. rewrite get_op_upd_op by reflexivity. destruct (Nat.eqb_spec o' o) as [->|]; [|reflexivity].
+  destruct (get_op s o) as [p|] eqn:Hp; [|reflexivity]. cbn [option_map]. f_equal. unfold go.
+  cbn [o_id o_tracked o_ph o_caller o_tgt set_o_ph is_done]. rewrite (tracked_not_done s o p H Hp), andb_false_r. reflexivity.
+Qed.
+
+Lemma gi_after_push s o k : gi s -> gi (after_push o k s).
+Proof. intros H. unfold after_push. destruct k; try (apply gi_finish; exact H). apply gi_set_waitreply, H. Qed.
+Lemma gi_send_failed s p : gi s -> gi (send_failed p s).
+Proof. intros H. unfold send_failed. destruct (o_kind p); apply gi_finish; try apply gi_record_dl; exact H. Qed.
+Lemma gi_try_send s p : gi s -> gi (try_send p s).
+Proof.
+  intros H. unfold try_send. repeat case_match; try exact H.
+  - apply gi_send_failed, H.
+  - apply gi_after_push, gi_push, H.
+  - eapply gi_gsame; [|exact H]. apply gsame_upd_actor; [reflexivity|apply gsame_refl].
+Qed.
+Lemma gi_poll_inner s p : gi s -> gi (poll_inner p s).
+Proof.
+  intros H. unfold poll_inner. repeat case_match; try exact H.
+  - apply gi_send_failed, gi_unwait, gi_ungrant, H.
+  - apply gi_after_push, gi_push, gi_ungrant, H.
+  - apply gi_finish, H.
+  - apply gi_finish, gi_record_dl, H.
+Qed.
+Lemma gi_post_inner s o : gi s -> gi (post_inner o s).
+Proof.
+  intros H. unfold post_inner. repeat case_match; try exact H.
+  apply gi_finish, gi_record_dl, gi_cancel_inner, H.
+Qed.
+Lemma gi_poll s o : gi s -> gi (poll o s).
+Proof. intros H. unfold poll. repeat case_match; try exact H. apply gi_post_inner, gi_poll_inner, H. Qed.
+Lemma gi_cancel s o : gi s -> gi (cancel o s).
+Proof. intros H. unfold cancel. repeat case_match; try exact H. apply gi_finish, gi_cancel_inner, H. Qed.
+
+(* ---------- begin: the one place an edge is inserted ---------- *)
+Lemma get_actor_set_hop s c o b :
+  get_actor (set_hop c o s) b =
+  match c with Some c' => if b =? c' then option_map (set_a_hop (Some o)) (get_actor s b) else get_actor s b
+             | None => get_actor s b end.
+Proof. unfold set_hop. destruct c; [apply get_actor_upd_actor|reflexivity]. Qed.
+
+Section Add.
+  Variables (s : sys) (o : oid) (q : op) (caller : option aid) (gr : list (N * N)).
+  Hypothesis Hgi : gi s.
+  Hypothesis Hfresh : get_op s o = None.
+  Hypothesis Hid : o_id q = o.
+  Hypothesis Hcaller : o_caller q = caller.
+  Hypothesis Hcok : caller_ok s caller = true.
+  Let s1 := set_hop caller o (set_s_graph gr (set_s_ops (s_ops s ++ [q]) s)).
+
+  Lemma add_get_op_old o' : o' <> o -> get_op s1 o' = get_op s o'.
+  Proof.
+    intros Hne. unfold s1, set_hop. destruct caller; [rewrite get_op_upd_actor|];
+      change (get_op (set_s_graph gr ?st) o') with (get_op st o'); rewrite get_op_app;
+      destruct (get_op s o'); try reflexivity; rewrite Hid; apply Nat.eqb_neq in Hne; rewrite Nat.eqb_sym, Hne; reflexivity.
+  Qed.
+  Lemma add_get_op_new : get_op s1 o = Some q.
+  Proof.
+    unfold s1, set_hop. destruct caller; [rewrite get_op_upd_actor|];
+      change (get_op (set_s_graph gr ?st) o) with (get_op st o); rewrite get_op_app, Hfresh, Hid, Nat.eqb_refl; reflexivity.
+  Qed.
+  Lemma add_get_actor b :
+    get_actor s1 b = match caller with
+                     | Some c => if b =? c then option_map (set_a_hop (Some o)) (get_actor s b) else get_actor s b
+                     | None => get_actor s b end.
+  Proof. unfold s1. rewrite get_actor_set_hop. reflexivity. Qed.
+  Lemma add_graph : s_graph s1 = gr.
+  Proof. unfold s1, set_hop. destruct caller; reflexivity. Qed.
+
+  Lemma add_actor_fwd b x : get_actor s b = Some x ->
+    exists y, get_actor s1 b = Some y /\ a_id y = a_id x /\ (caller <> Some b -> a_hop y = a_hop x).
+  Proof.
+    intros Hx. rewrite add_get_actor. destruct caller as [c|].
+    - destruct (Nat.eqb_spec b c) as [->|Hne]; rewrite Hx; cbn [option_map]; eexists; split; try reflexivity; split; try reflexivity.
+      + intros H. congruence.
+    - exists x. auto.
+  Qed.
+  Lemma add_actor_bwd b y : get_actor s1 b = Some y -> exists x, get_actor s b = Some x /\ a_id y = a_id x.
+  Proof.
+    rewrite add_get_actor. destruct caller as [c|]; [destruct (b =? c)|]; intros H; try (exists y; auto; fail).
+    destruct (get_actor s b) as [x|]; [|discriminate]. cbn in H. injection H as <-. exists x. auto.
+  Qed.
+
+  (* a hook that is about to begin an operation awaits nothing: no edge is its own *)
+  Lemma caller_has_no_wit cid tid o' p' b xb xt : edge_wit s cid tid o' p' b xb xt -> caller <> Some b.
+  Proof.
+    intros [W1 W2 W3 W4 W5 W6 W7 W8 W9] E. pose proof Hcok as Hc'. rewrite E in Hc'. unfold caller_ok in Hc'. rewrite W5 in Hc'.
+    apply andb_prop in Hc'. destruct Hc' as [_ Hh]. unfold hop_free in Hh. rewrite W7 in Hh. discriminate.
+  Qed.
+
+  Lemma add_wit cid tid o' p' b xb xt :
+    edge_wit s cid tid o' p' b xb xt -> exists xb' xt', edge_wit s1 cid tid o' p' b xb' xt'.
+  Proof.
+    intros W. pose proof (caller_has_no_wit _ _ _ _ _ _ _ W) as Hnc. destruct W as [W1 W2 W3 W4 W5 W6 W7 W8 W9].
+    assert (Hne : o' <> o) by (intros ->; congruence).
+    destruct (add_actor_fwd b xb W5) as (xb' & Hb' & I1 & I2). destruct (add_actor_fwd _ xt W8) as (xt' & Ht' & J1 & _).
+    exists xb', xt'. constructor; try assumption; try congruence.
+    - rewrite add_get_op_old by exact Hne. exact W1.
+    - rewrite I2 by exact Hnc. exact W7.
+  Qed.
+
+  Lemma add_ids : ids_inj s1.
+  Proof.
+    destruct Hgi as [Hinj _]. intros b b' yb yb' Hb Hb' E.
+    destruct (add_actor_bwd b yb Hb) as (x & Hx & I). destruct (add_actor_bwd b' yb' Hb') as (x' & Hx' & I').
+    eapply Hinj; [exact Hx|exact Hx'|congruence].
+  Qed.
+End Add.
+
+Lemma gi_add_untracked s o q caller :
+  gi s -> get_op s o = None -> o_id q = o -> o_caller q = caller -> caller_ok s caller = true -> o_tracked q = false ->
+  gi (set_hop caller o (set_s_ops (s_ops s ++ [q]) s)).
+Proof.
+  intros Hgi Hfresh Hid Hcaller Hcok Hut.
+  change (gi (set_hop caller o (set_s_graph (s_graph s) (set_s_ops (s_ops s ++ [q]) s)))).
+  set (gr := s_graph s).
+  split; [apply (add_ids s o q caller gr Hgi Hcaller Hcok)|]. destruct Hgi as [Hinj [He Ho Hk]]. constructor.
+  - intros cid tid Hin. rewrite (add_graph s o q caller gr Hcaller Hcok) in Hin. destruct (He cid tid Hin) as (o' & p' & b & xb & xt & W).
+    destruct (add_wit s o q caller gr Hfresh Hid Hcaller Hcok _ _ _ _ _ _ _ W) as (xb' & xt' & W'). eauto 8.
+  - intros o' p' Hp' Htr. destruct (Nat.eqb_spec o' o) as [->|Hne].
+    + rewrite (add_get_op_new s o q caller gr Hfresh Hid Hcaller Hcok) in Hp'. injection Hp' as <-. congruence.
+    + rewrite (add_get_op_old s o q caller gr Hid Hcaller Hcok o' Hne) in Hp'.
+      destruct (Ho o' p' Hp' Htr) as (b & xb & xt & W & Hin).
+      destruct (add_wit s o q caller gr Hfresh Hid Hcaller Hcok _ _ _ _ _ _ _ W) as (xb' & xt' & W').
+      exists b, xb', xt'. rewrite (ew_cid _ _ _ _ _ _ _ _ W'), (ew_tid _ _ _ _ _ _ _ _ W'), (add_graph s o q caller gr Hcaller Hcok). auto.
+  - rewrite (add_graph s o q caller gr Hcaller Hcok). exact Hk.
+Qed.
+
+Lemma gi_add_tracked s o q b y xa :
+  gi s -> get_op s o = None -> o_id q = o -> o_caller q = Some b -> caller_ok s (Some b) = true ->
+  o_tracked q = true -> o_ph q = OPre -> get_actor s b = Some y -> get_actor s (o_tgt q) = Some xa ->
+  gi (set_hop (Some b) o (set_s_graph (g_insert (a_id y) (a_id xa) (s_graph s)) (set_s_ops (s_ops s ++ [q]) s))).
+Proof.
+  intros Hgi Hfresh Hid Hcaller Hcok Htr Hph Hy Hxa.
+  set (gr := g_insert (a_id y) (a_id xa) (s_graph s)).
+  split; [apply (add_ids s o q (Some b) gr Hgi Hcaller Hcok)|]. pose proof Hgi as [Hinj [He Ho Hk]].
+  pose proof (add_graph s o q (Some b) gr Hcaller Hcok) as Hgr.
+  (* the new record's witness *)
+  destruct (add_actor_fwd s o q (Some b) gr Hcaller Hcok b y Hy) as (y' & Hy' & Iy & _).
+  assert (Hhop' : a_hop y' = Some o).
+  { rewrite (add_get_actor s o q (Some b) gr), Nat.eqb_refl, Hy in Hy'. cbn in Hy'. injection Hy' as <-. reflexivity. }
+  destruct (add_actor_fwd s o q (Some b) gr Hcaller Hcok _ xa Hxa) as (xa' & Hxa' & Ia & _).
+  assert (Wnew : edge_wit (set_hop (Some b) o (set_s_graph gr (set_s_ops (s_ops s ++ [q]) s))) (a_id y) (a_id xa) o q b y' xa').
+  { constructor; try assumption.
+    - apply (add_get_op_new s o q (Some b) gr Hfresh Hid Hcaller Hcok).
+    - rewrite Hph. reflexivity. }
+  (* an old edge has another key *)
+  assert (Hother : forall cid tid o' p' b' xb xt, edge_wit s cid tid o' p' b' xb xt -> cid <> a_id y).
+  { intros cid tid o' p' b' xb xt W E. pose proof (caller_has_no_wit s (Some b) Hcok _ _ _ _ _ _ _ W) as Hnc.
+    destruct W as [W1 W2 W3 W4 W5 W6 W7 W8 W9]. apply Hnc. f_equal. symmetry. eapply Hinj; [exact W5|exact Hy|congruence]. }
+  constructor.
+  - intros cid tid Hin. rewrite Hgr in Hin. unfold gr, g_insert in Hin. destruct Hin as [E|Hin].
+    + injection E as <- <-. eauto 8.
+    + apply g_remove_in in Hin. destruct Hin as [Hin _]. destruct (He cid tid Hin) as (o' & p' & b' & xb & xt & W).
+      destruct (add_wit s o q (Some b) gr Hfresh Hid Hcaller Hcok _ _ _ _ _ _ _ W) as (xb' & xt' & W'). eauto 8.
+  - intros o' p' Hp' Htr'. destruct (Nat.eqb_spec o' o) as [->|Hne].
+    + rewrite (add_get_op_new s o q (Some b) gr Hfresh Hid Hcaller Hcok) in Hp'. injection Hp' as <-.
+      exists b, y', xa'. rewrite Iy, Ia, Hgr. split; [exact Wnew|]. left. reflexivity.
+    + rewrite (add_get_op_old s o q (Some b) gr Hid Hcaller Hcok o' Hne) in Hp'.
+      destruct (Ho o' p' Hp' Htr') as (b' & xb & xt & W & Hin).
+      destruct (add_wit s o q (Some b) gr Hfresh Hid Hcaller Hcok _ _ _ _ _ _ _ W) as (xb' & xt' & W').
+      exists b', xb', xt'. rewrite (ew_cid _ _ _ _ _ _ _ _ W'), (ew_tid _ _ _ _ _ _ _ _ W'), Hgr. split; [exact W'|].
+      right. apply g_remove_in. split; [exact Hin|]. eapply Hother. exact W.
+  - rewrite Hgr. unfold gr, g_insert. cbn [map fst]. constructor; [|apply g_remove_keys, Hk].
+    intros Hin. apply in_map_iff in Hin. destruct Hin as ([c t] & E & Hin). cbn in E. subst c.
+    apply g_remove_in in Hin. destruct Hin as [_ Hin]. congruence.
+Qed.
+
+(* ---------- the actor's own steps never touch what the invariant reads ---------- *)
+Lemma gsame_NF s a x f fo evs :
+  get_actor s a = Some x -> ga (f x) = ga x -> (forall p, o_id (fo p) = o_id p) -> (forall p, go (fo p) = go p) ->
+  gsame s (NF a f fo evs s).
+Proof.
+  intros Hx Hf Hid Hfo. repeat split.
+  - intros b. rewrite NF_get_actor. destruct (Nat.eqb_spec b a) as [->|]; [|reflexivity]. rewrite Hx. cbn. rewrite Hf. reflexivity.
+  - intros o. rewrite NF_get_op by exact Hid. destruct (get_op s o); cbn; [rewrite Hfo|]; reflexivity.
+Qed.
+
+Lemma hop_take_f i tl y : a_hop (take_f i tl y) = a_hop y /\ a_id (take_f i tl y) = a_id y.
+Proof.
+  unfold take_f, regrant_f. cbn. destruct (a_waiters y); [split; reflexivity|].
+  match goal with |- context [if ?c then _ else _] => destruct c end; split; reflexivity.
+Qed.
+Lemma ga_mrec_f on y : ga (mrec_f on y) = ga y.
+Proof. unfold mrec_f. destruct on; reflexivity. Qed.
+
+Lemma local_ga s a x l f fo evs : Local s a x l f fo evs -> ga (f x) = ga x.
+Proof.
+  intros HL. inversion HL; subst; unfold ga, stop_f, handle_f, run_f, idf, end_f;
+    cbn [a_id a_hop set_a_pc set_a_ustate set_a_idle set_a_term set_a_closed set_a_mbox];
+    rewrite ?(proj1 (hop_take_f _ _ _)), ?(proj2 (hop_take_f _ _ _)); try reflexivity;
+    try (change (ga (mrec_f (f_metrics (s_feat s)) x) = ga x); apply ga_mrec_f).
+Qed.
+Lemma ddpanic_ga s a x f fo evs : DdPanic s a x f fo evs -> ga (f x) = ga x.
+Proof.
+  intros HD. inversion HD; subst; unfold ga, end_f; cbn [a_id a_hop set_a_pc set_a_closed set_a_term set_a_mbox]; try reflexivity.
+  change (ga (mrec_f (f_metrics (s_feat s)) x) = ga x). apply ga_mrec_f.
+Qed.
+Lemma slot_case_go p p' evs : SlotCase p p' evs -> go p' = go p.
+Proof. intros [->|a out _ -> _ _|_ ->]; reflexivity. Qed.
+
+(* ---------- one step ---------- *)
+Theorem gi_step s l : gi s -> ids_inj (sys_step s l) -> gi (sys_step s l).
+Proof.
+  intros H Hinj'.
+  assert (Hactor : forall b, label_actor l = Some b -> gi (sys_step s l)).
+  { intros b Hl. destruct (get_actor s b) as [xb|] eqn:Hxb.
+    - destruct (actor_step_nf s l b xb Hl Hxb) as (f & fo & evs & E & HL). rewrite E.
+      eapply gi_gsame; [|exact H]. apply (gsame_NF s b xb); [exact Hxb|eapply local_ga; exact HL| |].
+      + intros p. eapply fo_preserves_id. exact HL.
+      + intros p. eapply slot_case_go. eapply local_slot_case. exact HL.
+    - rewrite (actor_step_absent s l b Hl Hxb). exact H. }
+  assert (Hupd : forall a f, (forall x, ga (f x) = ga x) -> gi (upd_actor a f s)).
+  { intros a f Hf. eapply gi_gsame; [|exact H]. apply gsame_upd_actor; [exact Hf|apply gsame_refl]. }
+  destruct l; try (apply (Hactor a); reflexivity); cbn [sys_step] in *.
+  - (* spawn *)
+    split; [exact Hinj'|]. destruct H as [_ [He Ho Hk]].
+    assert (Hw : forall cid tid o p b xb xt, edge_wit s cid tid o p b xb xt -> edge_wit (spawn cap s) cid tid o p b xb xt).
+    { intros cid tid o p b xb xt [W1 W2 W3 W4 W5 W6 W7 W8 W9]. constructor; try assumption.
+      - unfold get_op. rewrite spawn_ops. exact W1.
+      - apply spawn_get_old, W5.
+      - apply spawn_get_old, W8. }
+    assert (Hg : s_graph (spawn cap s) = s_graph s) by (unfold spawn; destruct (cap =? 0); reflexivity).
+    constructor.
+    + intros cid tid Hin. rewrite Hg in Hin. destruct (He cid tid Hin) as (o & p & b & xb & xt & W). eauto 8.
+    + intros o p Hp Htr. unfold get_op in Hp. rewrite spawn_ops in Hp. destruct (Ho o p Hp Htr) as (b & xb & xt & W & Hin).
+      exists b, xb, xt. rewrite Hg. auto.
+    + rewrite Hg. exact Hk.
+  - (* begin *)
+    unfold begin. destruct (get_op s o) eqn:Hfresh; [exact H|].
+    destruct (get_actor s a) as [xa|] eqn:Hxa; [|exact H].
+    destruct (caller_ok s caller && (0 <? a_ext xa)) eqn:Hc; [|exact H].
+    apply andb_prop in Hc. destruct Hc as [Hc _].
+    assert (H0 : gi (emit (EvBegin o k a) s)) by (eapply gi_gsame; [apply gsame_emit, gsame_refl|exact H]).
+    destruct (dd_check s k caller xa) as [|c bid|c cyc] eqn:Hdd.
+    + apply gi_post_inner, gi_try_send.
+      apply (gi_add_untracked (emit (EvBegin o k a) s) o _ caller H0 Hfresh); try reflexivity. exact Hc.
+    + unfold dd_check in Hdd. destruct k; try discriminate. destruct caller as [c'|]; try discriminate.
+      destruct (f_dd (s_feat s)); try discriminate. destruct (get_actor s c') as [xc|] eqn:Hxc; try discriminate.
+      destruct (N.eqb (a_id xc) (a_id xa) || has_path (s_graph s) (a_id xa) (a_id xc)); try discriminate.
+      injection Hdd as <- <-. apply gi_post_inner, gi_try_send.
+      apply (gi_add_tracked (emit (EvBegin o KAsk a) s) o _ c' xc xa H0 Hfresh); try reflexivity; assumption.
+    + destruct (begin_panic_nf s o k a caller xa c cyc Hxa Hc Hdd) as (xc & F & FO & EVS & Hxc & HD & E).
+      rewrite E. eapply gi_gsame; [|exact H].
+      apply (gsame_NF s c xc); [exact Hxc|eapply ddpanic_ga; exact HD| |].
+      * intros p. eapply fo_preserves_id_dd. exact HD.
+      * intros p. eapply slot_case_go. eapply ddpanic_slot_case. exact HD.
+  - apply gi_poll, H.
+  - apply gi_cancel, H.
+  - unfold kill. repeat case_match; try exact H. eapply gi_gsame; [|exact H].
+    apply gsame_emit, gsame_upd_actor; [|apply gsame_refl]. intros y. destruct (a_closed y); reflexivity.
+  - unfold ref_clone. repeat case_match; try exact H. apply Hupd. reflexivity.
+  - unfold ref_drop. repeat case_match; try exact H. apply Hupd. reflexivity.
+  - unfold ref_upgrade. repeat case_match; try exact H. apply Hupd. reflexivity.
+  - eapply gi_gsame; [|exact H]. eapply gsame_ext; [| | |apply gsame_refl]; reflexivity.
+Qed.
+
+(* ---------- every reachable state (fewer than 2^64 - 1 spawns, so that ids are unique) ---------- *)
+Definition few (s : sys) : Prop := (N.of_nat (length (s_actors s)) < two64 - 1)%N.
+
+Lemma gi_init f : gi (init f).
+Proof.
+  split.
+  - intros b b' xb xb' Hb. unfold get_actor in Hb. cbn in Hb. destruct b; discriminate.
+  - constructor.
+    + intros cid tid [].
+    + intros o p Hp. unfold get_op in Hp. cbn in Hp. discriminate.
+    + constructor.
+Qed.
+
+Lemma ids_inj_run f ls : few (run f ls) -> ids_inj (run f ls).
+Proof.
+  intros Hfew b b' xb xb' Hb Hb' E. destruct (Nat.eq_dec b b') as [|Hne]; [assumption|].
+  exfalso. exact (ids_unique f ls b b' xb xb' Hfew Hb Hb' Hne E).
+Qed.
+
+Lemma few_mono s l : few (sys_step s l) -> few s.
+Proof.
+  unfold few. intros H.
+  assert (Hle : length (s_actors s) <= length (s_actors (sys_step s l))).
+  { destruct (le_lt_dec (length (s_actors s)) (length (s_actors (sys_step s l)))) as [|Hlt]; [assumption|exfalso].
+    destruct (nth_error (s_actors s) (length (s_actors (sys_step s l)))) as [x|] eqn:Hx.
+    - destruct (accepted_grows_step s l _ x Hx) as (y & d & Hy & _). unfold get_actor in Hy.
+      assert (Hn : nth_error (s_actors (sys_step s l)) (length (s_actors (sys_step s l))) = None) by (apply nth_error_None; lia).
+      congruence.
+    - apply nth_error_None in Hx. lia. }
+  lia.
+Qed.
+
+Theorem gi_run f ls : few (run f ls) -> gi (run f ls).
+Proof.
+  induction ls as [|l ls IH] using rev_ind; intros Hfew; [apply gi_init|].
+  unfold run in *. rewrite fold_left_app in *. cbn [fold_left] in *.
+  apply gi_step; [apply IH, (few_mono _ l), Hfew|].
+  pose proof (ids_inj_run f (ls ++ [l])) as Hi. unfold run in Hi. rewrite fold_left_app in Hi. apply Hi, Hfew.
+Qed.
+
+Section Run.
+  Variables (f : feats) (ls : list label).
+  Local Notation S := (run f ls).
+  Hypothesis Hfew : few S.
+
+  (* every edge of the wait-for graph is an operation that the running hook of the actor with the
+     key's id has begun and is still awaiting (it has not returned to that hook yet), sent to the
+     actor with the value's id *)
+  Theorem run_edge_is_awaited cid tid :
+    In (cid, tid) (s_graph S) -> exists o p b xb xt, edge_wit S cid tid o p b xb xt.
+  Proof. destruct (gi_run f ls Hfew) as [_ [He _ _]]. apply He. Qed.
+
+  (* and every tracked operation that has not returned has its edge *)
+  Theorem run_tracked_has_edge o p :
+    get_op S o = Some p -> o_tracked p = true ->
+    exists b xb xt, edge_wit S (a_id xb) (a_id xt) o p b xb xt /\ In (a_id xb, a_id xt) (s_graph S).
+  Proof. destruct (gi_run f ls Hfew) as [_ [_ Ho _]]. apply Ho. Qed.
+
+  Theorem run_graph_functional : NoDup (map fst (s_graph S)).
+  Proof. destruct (gi_run f ls Hfew) as [_ [_ _ Hk]]. exact Hk. Qed.
+
+  (* no residue: once every operation has returned, the graph is empty *)
+  Theorem run_no_residue :
+    (forall o p, get_op S o = Some p -> is_done (o_ph p) = true) -> s_graph S = [].
+  Proof.
+    intros Hall. destruct (s_graph S) as [|[c t] g] eqn:E; [reflexivity|exfalso].
+    destruct (run_edge_is_awaited c t) as (o & p & b & xb & xt & W); [rewrite E; left; reflexivity|].
+    pose proof (ew_nd _ _ _ _ _ _ _ _ W) as Hnd. rewrite (Hall o p (ew_op _ _ _ _ _ _ _ _ W)) in Hnd. discriminate.
+  Qed.
+
+  (* an actor whose hook awaits nothing has no outgoing edge *)
+  Theorem run_no_edge_when_not_awaiting b xb tid :
+    get_actor S b = Some xb -> a_hop xb = None -> ~ In (a_id xb, tid) (s_graph S).
+  Proof.
+    intros Hb Hh Hin. destruct (run_edge_is_awaited _ _ Hin) as (o & p & b' & xb' & xt & [W1 W2 W3 W4 W5 W6 W7 W8 W9]).
+    assert (b' = b) by (eapply (ids_inj_run f ls Hfew); eassumption). subst b'. congruence.
+  Qed.
+End Run.
+
+(* ---------- with the detector on, every unfinished ask begun by a hook is tracked ---------- *)
+Lemma feat_step' s l : s_feat (sys_step s l) = s_feat s.
+Proof.
+  destruct l; try (apply (Q_step s_feat); try reflexivity; discriminate); cbn [sys_step].
+  - unfold spawn. destruct (cap =? 0); reflexivity.
+  - reflexivity.
+Qed.
+
+Definition tr_ok (s : sys) : Prop :=
+  f_dd (s_feat s) = true ->
+  forall o p b, get_op s o = Some p -> o_kind p = KAsk -> o_caller p = Some b -> is_done (o_ph p) = false ->
+                o_tracked p = true.
+
+Lemma op_static_fields p q : op_static p = op_static q -> o_kind p = o_kind q /\ o_caller p = o_caller q /\ o_tgt p = o_tgt q.
+Proof. unfold op_static. intros E. injection E as ? ? ? ? ? ?. auto. Qed.
+
+Theorem tr_ok_step s l : tr_ok s -> tr_ok (sys_step s l).
+Proof.
+  intros H Hdd o p' b Hp' Hk Hc Hnd. rewrite feat_step' in Hdd. specialize (H Hdd).
+  destruct (get_op s o) as [p|] eqn:Hp.
+  - destruct (op_step_cases s l o p Hp) as (p'' & Hp'' & HC). rewrite Hp' in Hp''. injection Hp'' as <-.
+    destruct HC as [->|evs _ Hnd0 HS _|_ _ ->|evs _ HC].
+    + apply (H o p b Hp); assumption.
+    + destruct (op_static_fields _ _ (os_static _ _ _ _ _ _ HS)) as (E1 & E2 & _).
+      rewrite (os_tracked _ _ _ _ _ _ HS Hnd). apply (H o p b Hp); [congruence|congruence|exact Hnd0].
+    + discriminate.
+    + destruct HC as [->|a out _ -> _ _|_ ->]; cbn in *; apply (H o p b Hp); assumption.
+  - destruct (step_new_op s l o p' Hp Hp') as (k & a & caller & tmo & fn & q & s1 & evs & -> & Hid & Hkq & Ht & Hcq & Hqph & Hqsl & HS & HB & _ & _ & _ & _ & Htrk).
+    destruct (op_static_fields _ _ (os_static _ _ _ _ _ _ HS)) as (E1 & E2 & _).
+    rewrite (os_tracked _ _ _ _ _ _ HS Hnd). apply Htrk; [exact Hdd|congruence|exists b; congruence].
+Qed.
+
+Theorem tr_ok_run f ls : tr_ok (run f ls).
+Proof.
+  unfold run. assert (H : tr_ok (init f)) by (intros _ o p b Hp; unfold get_op in Hp; cbn in Hp; discriminate).
+  revert H. generalize (init f). induction ls as [|l ls IH]; intros s H; cbn [fold_left]; [exact H|].
+  apply IH, tr_ok_step, H.
+Qed.
+
+(* ---------- completeness over real in-flight asks (C14) ---------- *)
+Lemma g_get_in g k v : NoDup (map fst g) -> In (k, v) g -> g_get g k = Some v.
+Proof.
+  induction g as [|[k' v'] g IH]; cbn; intros Hnd Hin; [destruct Hin|].
+  apply NoDup_cons_iff in Hnd. destruct Hnd as [Hn Hnd]. destruct Hin as [E|Hin].
+  - injection E as -> ->. rewrite N.eqb_refl. reflexivity.
+  - destruct (N.eqb_spec k' k) as [->|]; [|apply IH; assumption].
+    exfalso. apply Hn. apply in_map_iff. exists (k, v). auto.
+Qed.
+
+Section Complete.
+  Variables (f : feats) (ls : list label).
+  Local Notation S := (run f ls).
+  Hypothesis Hfew : few S.
+  Hypothesis Hdd : f_dd (s_feat S) = true.
+
+  (* the running hook of actor b has begun an ask to actor c that has not returned to it *)
+  Definition awaits (b c : aid) : Prop :=
+    exists o p, get_op S o = Some p /\ o_kind p = KAsk /\ o_caller p = Some b /\ o_tgt p = c /\ is_done (o_ph p) = false.
+
+  Inductive reaches : aid -> aid -> Prop :=
+  | R_one b c : awaits b c -> reaches b c
+  | R_more b c d : awaits b c -> reaches c d -> reaches b d.
+
+  Lemma awaits_edge b c :
+    awaits b c -> exists xb xc, get_actor S b = Some xb /\ get_actor S c = Some xc /\
+                                g_get (s_graph S) (a_id xb) = Some (a_id xc).
+  Proof.
+    intros (o & p & Hp & Hk & Hc & Ht & Hnd).
+    pose proof (tr_ok_run f ls Hdd o p b Hp Hk Hc Hnd) as Htr.
+    destruct (run_tracked_has_edge f ls Hfew o p Hp Htr) as (b' & xb & xt & [W1 W2 W3 W4 W5 W6 W7 W8 W9] & Hin).
+    rewrite Hc in W4. injection W4 as <-. rewrite Ht in W8. exists xb, xt. repeat split; try assumption.
+    apply g_get_in; [apply (run_graph_functional f ls Hfew)|exact Hin].
+  Qed.
+
+  Lemma reaches_iter b d :
+    reaches b d -> exists xb xd k, get_actor S b = Some xb /\ get_actor S d = Some xd /\ 1 <= k /\
+                                   iter_edge (s_graph S) k (a_id xb) = Some (a_id xd).
+  Proof.
+    induction 1 as [b c Ha|b c d Ha _ IH].
+    - destruct (awaits_edge b c Ha) as (xb & xc & Hb & Hc & Hg). exists xb, xc, 1. repeat split; try assumption; [lia|].
+      cbn. rewrite Hg. reflexivity.
+    - destruct (awaits_edge b c Ha) as (xb & xc & Hb & Hc & Hg). destruct IH as (xc' & xd & k & Hc' & Hd & Hk & Hi).
+      rewrite Hc in Hc'. injection Hc' as <-. exists xb, xd, (Datatypes.S k). repeat split; try assumption; [lia|].
+      cbn. rewrite Hg. exact Hi.
+  Qed.
+
+  (* if the callee (transitively) awaits the caller - through hooks of any actors, any number of
+     hops - or the caller asks itself, the ask panics instead of waiting *)
+  Theorem run_detects_cycle k caller x b y c :
+    k = KAsk -> caller = Some b -> get_actor S b = Some y -> get_actor S c = Some x ->
+    (b = c \/ reaches c b) ->
+    exists cyc, dd_check S k caller x = DDPanic b cyc.
+  Proof.
+    intros Hk Hcl Hy Hx Hcyc. apply (dd_check_spec S k caller x b y Hdd Hk Hcl Hy).
+    destruct Hcyc as [->|Hr].
+    - left. congruence.
+    - right. destruct (reaches_iter c b Hr) as (xc & xb & n & Hc & Hb & Hn & Hi).
+      rewrite Hx in Hc. injection Hc as <-. rewrite Hy in Hb. injection Hb as <-. eauto.
+  Qed.
+End Complete.
+
+Lemma g_get_some_in g k v : g_get g k = Some v -> In (k, v) g.
+Proof.
+  induction g as [|[k' v'] g IH]; cbn; [discriminate|]. destruct (N.eqb_spec k' k) as [->|].
+  - intros E. injection E as ->. left. reflexivity.
+  - intros H. right. apply IH, H.
+Qed.
